@@ -143,13 +143,32 @@ def R_fields(rng):
             rng.randrange(10 ** 6), rng.randrange(7)]
 
 
+def _foreign_zone(inner):
+    """A tzinfo of a class dateutil knows nothing about: PEP 495 behaviour
+    (utcoffset/dst/tzname honour dt.fold) borrowed from a rule zone, none of
+    dateutil's own methods (is_ambiguous, ...)."""
+    class Foreign(datetime.tzinfo):
+        def utcoffset(self, dt):
+            return inner.utcoffset(dt.replace(tzinfo=inner))
+
+        def dst(self, dt):
+            return inner.dst(dt.replace(tzinfo=inner))
+
+        def tzname(self, dt):
+            return inner.tzname(dt.replace(tzinfo=inner))
+
+        def __repr__(self):
+            return "Foreign()"
+    return Foreign()
+
+
 def gen_zone(rng):
     kind = rng.choice(["tzinfos_map", "tzinfos_map", "tzinfos_callable",
                        "local", "local", "local_ambiguous", "local_gap",
                        "utc", "utc",
                        "numeric", "numeric_named", "gmt_plus", "unknown",
                        "local_with_offset", "named_then_offset",
-                       "tzinfos_alias_ambiguous",
+                       "tzinfos_alias_ambiguous", "tzinfos_own_abbr_repeated",
                        "tzinfos_over_local", "tzinfos_over_utc", "none"])
     op = ["zone", kind, [2003, rng.randrange(1, 13), rng.randrange(1, 29),
                          rng.randrange(24), rng.randrange(60),
@@ -167,6 +186,9 @@ def gen_zone(rng):
     elif kind == "tzinfos_alias_ambiguous":
         op.append(rng.choice(["ET", "XX", "EASTN"]))
         op.append(rng.choice(["tzstr", "str", "callable"]))
+    elif kind == "tzinfos_own_abbr_repeated":
+        op.append(rng.choice(["EST", "EDT"]))
+        op.append(rng.choice(["tzstr", "foreign", "foreign"]))
     elif kind == "local_with_offset":
         op.append(rng.randrange(2))
         op.append(rng.choice(["name offset", "offset (name)"]))
@@ -633,6 +655,23 @@ def do_zone(env, ctx, op):
         text = base + " " + alias
         expect = ("alias_fold0", zs)
         tag = "tz.tzinfos_alias_in_repeated_hour"
+    elif kind == "tzinfos_own_abbr_repeated":
+        # tzinfos maps one of the zone's OWN abbreviations to a daylight-
+        # saving zone and the wall time lies in the repeated hour: the
+        # abbreviation written in the text says which of the two readings
+        # is meant. The zone is a dateutil tzstr or a tzinfo of a foreign
+        # class that follows PEP 495 (fold) and has no dateutil extras
+        name, how = op[4], op[5]
+        zs = "EST5EDT,M3.2.0,M11.1.0"
+        z = tz.tzstr(zs) if how == "tzstr" else _foreign_zone(tz.tzstr(zs))
+        wall = datetime.datetime(2011, 11, 6, 1, 30)
+        base = "2011-11-06 01:30"
+        if name in names_local:
+            return False
+        kw["tzinfos"] = {name: z}
+        text = base + " " + name
+        expect = ("own_abbr", z, name)
+        tag = "tz.tzinfos_own_abbreviation_in_repeated_hour"
     elif kind == "local_with_offset":
         # a local abbreviation AND a numeric offset in one text (what
         # strftime("%Z %z") prints): local names come first in the
@@ -762,6 +801,12 @@ def do_zone(env, ctx, op):
             got.tzname() == name
     elif k in ("local_gap", "local_kind"):
         ok = isinstance(got.tzinfo, tz.tzlocal)
+    elif k == "own_abbr":
+        _, z, name = expect
+        ok = got.tzinfo is z and got.tzname() == name and \
+            got.fold == (1 if name == "EST" else 0) and \
+            got.utcoffset().total_seconds() == \
+            (-18000 if name == "EST" else -14400)
     elif k == "alias_fold0":
         ok = isinstance(got.tzinfo, tz.tzstr) and \
             got.tzinfo == tz.tzstr(expect[1]) and got.fold == 0 and \
